@@ -59,6 +59,8 @@ _dbus_validate_signature_with_reason (const DBusString *type_str,
   int array_depth;
   int dict_entry_depth;
   DBusValidity result;
+  /* which kind of bracket was opened at each container nesting level */
+  char opened_brackets[DBUS_MAXIMUM_TYPE_RECURSION_DEPTH * 2 + 1] = { '\0' };
 
   int element_count;
   DBusList *element_count_stack;
@@ -136,6 +138,7 @@ _dbus_validate_signature_with_reason (const DBusString *type_str,
               goto out;
             }
 
+          opened_brackets[struct_depth + dict_entry_depth - 1] = DBUS_STRUCT_BEGIN_CHAR;
           break;
 
         case DBUS_STRUCT_END_CHAR:
@@ -151,9 +154,17 @@ _dbus_validate_signature_with_reason (const DBusString *type_str,
               goto out;
             }
 
+          /* the innermost open container must be a struct */
+          if (opened_brackets[struct_depth + dict_entry_depth - 1] != DBUS_STRUCT_BEGIN_CHAR)
+            {
+              result = DBUS_INVALID_STRUCT_ENDED_BUT_NOT_STARTED;
+              goto out;
+            }
+
           _dbus_list_pop_last (&element_count_stack);
 
           struct_depth -= 1;
+          opened_brackets[struct_depth + dict_entry_depth] = '\0';
           break;
 
         case DBUS_DICT_ENTRY_BEGIN_CHAR:
@@ -178,6 +189,7 @@ _dbus_validate_signature_with_reason (const DBusString *type_str,
               goto out;
             }
 
+          opened_brackets[struct_depth + dict_entry_depth - 1] = DBUS_DICT_ENTRY_BEGIN_CHAR;
           break;
 
         case DBUS_DICT_ENTRY_END_CHAR:
@@ -186,8 +198,16 @@ _dbus_validate_signature_with_reason (const DBusString *type_str,
               result = DBUS_INVALID_DICT_ENTRY_ENDED_BUT_NOT_STARTED;
               goto out;
             }
-            
+
+          /* the innermost open container must be a dict entry */
+          if (opened_brackets[struct_depth + dict_entry_depth - 1] != DBUS_DICT_ENTRY_BEGIN_CHAR)
+            {
+              result = DBUS_INVALID_DICT_ENTRY_ENDED_BUT_NOT_STARTED;
+              goto out;
+            }
+
           dict_entry_depth -= 1;
+          opened_brackets[struct_depth + dict_entry_depth] = '\0';
 
           element_count = 
             _DBUS_POINTER_TO_INT (_dbus_list_pop_last (&element_count_stack));
